@@ -23,7 +23,7 @@ pub const INFO: PropInfo = PropInfo {
         "all atomics involved are SeqCst, so interleaving at the six scheduling points is complete for this protocol (DESIGN.md 2.5)",
         "the oracle names no deadline while sessions are still running; every session ends by itself (client closes, or keep-alive timeout)",
     ],
-    expected_probes: &["c18.signal_during_first_poll", "c18.signal_between_checked_and_published", "c18.sessions_in_flight_at_signal", "c18.late_connect_refused", "c18.second_signal", "c18.slow_handler_finished_after_signal", "c18.spinner_rule_engaged", "c18.signal_with_no_sessions"],
+    expected_probes: &["c18.signal_during_first_poll", "c18.signal_between_checked_and_published", "c18.sessions_in_flight_at_signal", "c18.late_connect_refused", "c18.second_signal", "c18.slow_handler_finished_after_signal", "c18.spinner_rule_engaged", "c18.signal_with_no_sessions", "c18.session_ended_by_panic"],
 };
 
 #[derive(Clone, Debug, Serialize, Deserialize)]
@@ -37,6 +37,8 @@ pub enum ClientKind {
     Half { rest_after_ms: u64 },
     /// two requests on one connection, the second after `gap_ms`
     Two { gap_ms: u64, delay_ms: u64 },
+    /// a request whose handler panics after `delay_ms` (user code may panic; the session task then ends by unwinding)
+    Panic { delay_ms: u64 },
 }
 #[derive(Clone, Debug, Serialize, Deserialize)]
 pub struct ClientPlan {
@@ -64,7 +66,8 @@ pub fn generate(_cfg: &RunCfg, _out: &mut Outcome) -> Scenario {
                 2 => sigint_ms + t::pick(&[0u64, 1, 5, 100]),
                 _ => t::pick(&[1u64, 2, 3, 50, 500]),
             };
-            let kind = match t::weighted(&[4, 3, 2, 2, 2]) {
+            let kind = match t::weighted(&[4, 3, 2, 2, 2, 2]) {
+                5 => ClientKind::Panic { delay_ms: t::pick(&[0u64, 1, 50, 2000]) },
                 0 => ClientKind::Slow { delay_ms: t::pick(&[0u64, 1, 50, 2000, 20_000]) },
                 1 => ClientKind::Fast,
                 2 => ClientKind::Idle { close_after_ms: t::pick(&[1u64, 100, 5000, 60_000]) },
@@ -181,6 +184,18 @@ fn execute(sc: &Scenario, out: &mut Outcome) {
             }
         }),
         "/fast".GET(|| async { "fast" }),
+        "/panic".GET(|req: &Request| {
+            let d = req.headers.get("x-delay-ms").and_then(|v| v.parse::<u64>().ok()).unwrap_or(0);
+            async move {
+                if d > 0 {
+                    tokio::time::sleep(std::time::Duration::from_millis(d)).await;
+                }
+                if d < u64::MAX {
+                    panic!("scripted handler panic");
+                }
+                "unreachable"
+            }
+        }),
     ));
     let server = simcore::spawn_task("server", "server", async move {
         app.howl(rt::ADDR).await;
@@ -243,6 +258,12 @@ fn execute(sc: &Scenario, out: &mut Outcome) {
                         ob.sent_complete_request = true;
                         ob.expected_responses = 1;
                     }
+                    let r = c.recv(false, DEFAULT_TIMEOUT).await;
+                    o.borrow_mut().results.push(r);
+                }
+                ClientKind::Panic { delay_ms } => {
+                    c.send(format!("GET /panic HTTP/1.1\r\nHost: s\r\nx-delay-ms: {delay_ms}\r\n\r\n").as_bytes(), 0);
+                    // the handler panics: the connection is dropped without a response (nothing is owed)
                     let r = c.recv(false, DEFAULT_TIMEOUT).await;
                     o.borrow_mut().results.push(r);
                 }
@@ -315,7 +336,11 @@ fn execute(sc: &Scenario, out: &mut Outcome) {
     }
 
     // ---- oracle
-    let panics = rt::panicked_tasks();
+    // the scripted handler panic is user code misbehaving, not the framework
+    let panics: Vec<_> = rt::panicked_tasks().into_iter().filter(|p| !p.4.starts_with("scripted handler panic")).collect();
+    if rt::panicked_tasks().len() > panics.len() {
+        out.probe("c18.session_ended_by_panic");
+    }
     if let Some((_, _, file, _, msg)) = panics.first() {
         out.violate("no-panic", rt::panic_site(file, msg), format!("a server task panicked at {file}: {msg}"));
         return;
@@ -344,7 +369,8 @@ fn execute(sc: &Scenario, out: &mut Outcome) {
     // liveness: the world is quiescent — every session is over, the handler has finished, nothing can happen any more
     if !server_done {
         let unfinished: Vec<usize> = sessions.iter().filter(|s| s.1.is_none()).map(|s| s.0).collect();
-        let manifestation = if unfinished.is_empty() { "lost-wakeup" } else { "sessions-never-finish" };
+        let by_panic = rt::all_panicked_tasks().iter().any(|p| p.1 == "session");
+        let manifestation = if !unfinished.is_empty() { "sessions-never-finish" } else if by_panic { "hang-after-session-ended-by-panic" } else { "lost-wakeup" };
         out.violate(
             "howl-returns-eventually",
             manifestation,
